@@ -367,7 +367,14 @@ class Zeroconf(QuietLogger):
         """Registers service information to the network with a default TTL.
         Zeroconf will then respond to requests for information for that
         service."""
+        replaced_info = self.registry.async_get_info_name(info.key)
         self.registry.async_update(info)
+        if replaced_info is not None:
+            # Answers built from the replaced info may still wait in the multicast
+            # queues. Sent after the announcements below, the old records would be
+            # the newest ones in every cache on the network. The announcements
+            # carry every record of the service, so nothing is lost by dropping them.
+            self._async_remove_pending_answers(replaced_info, False)
         return asyncio.ensure_future(self._async_broadcast_service(info, _REGISTER_TIME, None))
 
     async def async_get_service_info(
